@@ -240,6 +240,16 @@ class World:
                 pass
         return (None, name)
 
+    def canon_name(self, name: str) -> str:
+        """The plan's name for a requested spelling ('./a', 'sub//d', 'a.liquid' with ext)."""
+        import posixpath
+
+        n = posixpath.normpath(name)
+        ext = getattr(self.store, "ext", None)
+        if ext and n.endswith(ext):
+            n = n[: -len(ext)]
+        return n
+
     def live(self, name, context, kwargs):
         rl = self.store.rlog
         rl.observer += 1
@@ -307,7 +317,7 @@ class World:
             ident = parse_ident(str(t))
             lk.served = (ident[1], ident[2]) if ident else (-1, "?")
             lk.served_mtime = self.store.mtime(lk.served[1]) if ident else None
-            if ident and ident[0] != lk.name and self.pending is None:
+            if ident and ident[0] != self.canon_name(lk.name) and self.pending is None:
                 # raised at the next judgement point, not through the library's frames
                 self.pending = Violation("wrong_template", lookup=lk.brief(), served_name=ident[0])
             if self.cur_loop is not None:
@@ -563,8 +573,9 @@ def do_render(w: World, op: dict, t, twin):
     seen: dict[str, tuple] = {}
     for lk in lookups:
         res = lk.served if lk.served is not None else ("err", lk.error)
+        cn = w.canon_name(lk.name)
         if res is not None:
-            if lk.name in seen and seen[lk.name] != res:
+            if cn in seen and seen[cn] != res:
                 # a permitted-stale entry was evicted and re-read in the middle of this render
                 # (recursive partials, small capacity): one name, two admissible versions.
                 # Every lookup has been judged; the counterpart can serve only one version per
@@ -573,7 +584,7 @@ def do_render(w: World, op: dict, t, twin):
                 if out[0] == "ok":
                     check_tokens(out[1], d, op.get("g_bound"), w.cfg.get("env_globals") or {})
                 return
-            seen[lk.name] = res
+            seen[cn] = res
     with w.with_clone(stale):
         exp = canon_call(twin.render, **w.data_for(d, "ref"))
     w.trace.append([out, exp])
@@ -740,9 +751,10 @@ def do_par(w: World, op: dict):
                                         live=sorted(live_set))
                 w.count("conc_stale_permitted")
                 stale.append(lk)
-            if lk.name in seen and seen[lk.name] != lk.served:
+            cn = w.canon_name(lk.name)   # two spellings of one file are one source
+            if cn in seen and seen[cn] != lk.served:
                 ambiguous = True
-            seen[lk.name] = lk.served
+            seen[cn] = lk.served
             if lk.live[0] != "ok" or lk.served != (lk.live[1], lk.live[2]):
                 if lk not in stale:
                     stale.append(lk)
@@ -900,6 +912,12 @@ def execute(plan: dict) -> dict:
                 elif k == "advance":
                     w.clock.advance(op["dt"])
                     w.count("F7_clock")
+                elif k == "envg":
+                    # the application changes an environment global between loads
+                    w.env.globals["gv"] = op["v"]
+                    w.cenv.globals["gv"] = op["v"]
+                    w.cfg["env_globals"] = {**(w.cfg.get("env_globals") or {}), "gv": op["v"]}
+                    w.count("env_globals_changed")
                 elif k == "par":
                     do_par(w, op)
                 elif k == "flush":
@@ -1018,6 +1036,10 @@ def gen_plan(seed: int, tier: str) -> dict:
              "data": data()}
         if rng.random() < 0.08:
             f["name"] = "nope"
+        elif store.startswith("fs") and rng.random() < 0.15:
+            base = f["name"]
+            f["name"] = rng.choice(["./" + base, base.replace("/", "//") if "/" in base else "./" + base,
+                                    base + ".liquid" if store == "fsx" else "./" + base])
         if nskey and rng.random() < 0.7:
             f["ns_kw"] = rng.choice(TENANTS)
         r = rng.random()
@@ -1080,8 +1102,11 @@ def gen_plan(seed: int, tier: str) -> dict:
         elif r < 0.86:
             ops.append({"op": "unavail"})
             ops.append({"op": "lr", "id": nid(), **lr_fields()})
-        elif r < 0.88:
+        elif r < 0.875:
             ops.append({"op": "advance", "dt": rng.choice([-3600, 0, 5, 86400 * 30])})
+        elif r < 0.89:
+            ops.append({"op": "envg", "v": rng.choice(["E1", "E2", ""])})
+            ops.append({"op": "lr", "id": nid(), **lr_fields()})
         else:
             tasks = []
             for _ in range(rng.randint(2, 4)):
